@@ -120,22 +120,12 @@ pub proof fn lemma_mp4a_pre(b: Mp4aBox)
 pub open spec fn desc_body(d: Seq<u8>, p: int) -> int { p + 1 + desc_len_bytes(d, p + 1) }
 pub open spec fn desc_sz(d: Seq<u8>, p: int) -> int { desc_len_value(d, p + 1) }
 
-/// AudioSpecificConfig at q as this crate reads it: two bytes; the escape value 15 of the frequency index is followed by a
-/// 24-bit rate; object types above 31 (escape 31 + 6 more bits) shift everything by six bits
-pub open spec fn dsd_profile(d: Seq<u8>, q: int) -> u8 { aot_of_bits(d[q], d[q + 1]) }
-pub open spec fn dsd_freq(d: Seq<u8>, q: int) -> u8 {
-    if dsd_profile(d, q) > 31 { ((d[q + 1] >> 1) & 0x0f) as u8 } else { asc_freq(d[q], d[q + 1]) }
-}
-pub open spec fn dsd_chan(d: Seq<u8>, q: int) -> u8 {
-    if dsd_freq(d, q) == 15 { ((be24(d, q + 2) >> 4) & 0x0f) as u8 }
-    else if dsd_profile(d, q) > 31 { ((d[q + 1] & 1) | (d[q + 2] & 0xe0)) as u8 }
-    else { asc_chan(d[q + 1]) }
-}
-pub open spec fn dsd_end(d: Seq<u8>, q: int) -> int {
-    q + 2 + (if dsd_freq(d, q) == 15 { 3int } else if dsd_profile(d, q) > 31 { 1int } else { 0int })
-}
+/// AudioSpecificConfig at q in its plain two-byte form (object type below the escape value 31, sampling-frequency index below the
+/// escape value 15): audioObjectType(5) samplingFrequencyIndex(4) channelConfiguration(4) 000. The escape-coded forms are not
+/// specified here (the muxer never writes them; what the crate does with them is constrained by C06/C07 only).
+pub open spec fn dsd_plain(d: Seq<u8>, q: int) -> bool { aot_of_bits(d[q], d[q + 1]) <= 31 && asc_freq(d[q], d[q + 1]) != 15 }
 pub open spec fn dsd_of(d: Seq<u8>, q: int) -> DecoderSpecificDescriptor {
-    DecoderSpecificDescriptor { profile: dsd_profile(d, q), freq_index: dsd_freq(d, q), chan_conf: dsd_chan(d, q) }
+    DecoderSpecificDescriptor { profile: aot_of_bits(d[q], d[q + 1]), freq_index: asc_freq(d[q], d[q + 1]), chan_conf: asc_chan(d[q + 1]) }
 }
 pub open spec fn dsd_default() -> DecoderSpecificDescriptor { DecoderSpecificDescriptor { profile: 0, freq_index: 0, chan_conf: 0 } }
 
@@ -144,13 +134,13 @@ pub open spec fn dsd_default() -> DecoderSpecificDescriptor { DecoderSpecificDes
 // What the crate does with a chain that violates this is constrained by C06/C07/C08 only, not by these functions.
 pub open spec fn desc_next(d: Seq<u8>, p: int) -> int { desc_body(d, p) + desc_sz(d, p) }
 
-/// descriptors from p tile [p, end) exactly, and every DecoderSpecificInfo among them is an AudioSpecificConfig of exactly its declared length
+/// descriptors from p tile [p, end) exactly, and every DecoderSpecificInfo among them is a plain two-byte AudioSpecificConfig
 pub open spec fn dcd_wf_from(d: Seq<u8>, p: int, end: int) -> bool
     decreases (if p < end { end - p } else { 0 })
 {
     if p >= end { p == end }
     else if desc_next(d, p) <= p { false }
-    else { (d[p] == 5 ==> dsd_end(d, desc_body(d, p)) == desc_next(d, p)) && dcd_wf_from(d, desc_next(d, p), end) }
+    else { (d[p] == 5 ==> dsd_plain(d, desc_body(d, p)) && desc_sz(d, p) == 2) && dcd_wf_from(d, desc_next(d, p), end) }
 }
 /// the DecoderSpecificInfo of the chain (the last one, should there be several)
 pub open spec fn dcd_fold(d: Seq<u8>, p: int, end: int, acc: Option<DecoderSpecificDescriptor>) -> Option<DecoderSpecificDescriptor>
@@ -327,7 +317,7 @@ pub proof fn lemma_esds_roundtrip(d: Seq<u8>, p: int, b: EsdsBox)
     // AudioSpecificConfig
     lemma_asc_roundtrip(x.profile, x.freq_index, x.chan_conf);
     assert(dsd_of(s, q + 26) == x);
-    assert(dsd_end(s, q + 26) == q + 28);
+    assert(dsd_plain(s, q + 26));
     // DecoderConfigDescriptor
     reveal_with_fuel(dcd_wf_from, 3);
     reveal_with_fuel(dcd_fold, 3);
